@@ -107,7 +107,8 @@ Section O.
 
   Lemma class_of_none : forall n q, ~ In q (prior_ids V n) -> class_of V q n = None.
   Proof.
-    induction n as [p|v|ms _|o ln rn l r _ _|cls ctor attrs IH|attrs IH] using node_ind'; intros q H; try reflexivity.
+    induction n as [p|v|ms _|o ln rn l r _ _|uo unm uc _|cls ctor attrs IH|attrs IH] using node_ind'; intros q H; try reflexivity.
+    - cbn [class_of]. rewrite (has_prior_false q _ H). reflexivity.
     - cbn [class_of]. rewrite (has_prior_false q _ H). reflexivity.
     - rewrite class_of_model. rewrite (has_prior_false q _ H).
       rewrite cgo_none; [reflexivity|]. intros [k c] Hkc. rewrite Forall_forall in IH. apply (IH (k, c) Hkc).
@@ -115,7 +116,7 @@ Section O.
     - rewrite class_of_coll.
       destruct (existsb (fun kc : string * node => match snd kc with NPrior p => Nat.eqb p q | _ => false end) attrs) eqn:E.
       + exfalso. apply existsb_exists in E. destruct E as [[k c] [Hkc Ec]]. simpl in Ec.
-        destruct c as [p| | | | |]; try discriminate. apply Nat.eqb_eq in Ec. subst p.
+        destruct c as [p| | | | | |]; try discriminate. apply Nat.eqb_eq in Ec. subst p.
         apply H. unfold prior_ids. rewrite walk_coll. apply (prior_ids_attr V attrs k (NPrior q) q Hkc). left. reflexivity.
       + apply cgo_none. intros [k c] Hkc. rewrite Forall_forall in IH. apply (IH (k, c) Hkc).
         intro Hq. apply H. unfold prior_ids. rewrite walk_coll. apply (prior_ids_attr V attrs k c q Hkc Hq).
@@ -136,7 +137,7 @@ Section O.
   Proof.
     induction p as [|k p IH]; intros n m r q H Hin.
     - simpl in H. inversion H; subst. exact Hin.
-    - destruct n as [?|?|?|? ? ? ? ?|cls ctor attrs|attrs]; simpl in H; try discriminate.
+    - destruct n as [?|?|?|? ? ? ? ?|? ? ?|cls ctor attrs|attrs]; simpl in H; try discriminate.
       + destruct (assoc k attrs) as [c|] eqn:A; [|discriminate]. apply PAFC01.Proofs.assoc_in in A.
         rewrite walk_model. specialize (IH c m r q H Hin).
         unfold walk_attrs. apply in_flat_map. exists (k, c). split; [exact A|]. simpl.
@@ -172,13 +173,13 @@ Section O.
       unfold prior_ids. apply in_map_iff. exists (rest, q). auto.
     - assert (Hw : In (p ++ k0 :: rest, q) (walk V (match n with NModel _ _ at' | NColl at' =>
                        match assoc k at' with Some c => c | None => n end | _ => n end))).
-      { destruct n as [?|?|?|? ? ? ? ?|cls' ctor' attrs'|attrs']; simpl in H; try discriminate;
+      { destruct n as [?|?|?|? ? ? ? ?|? ? ?|cls' ctor' attrs'|attrs']; simpl in H; try discriminate;
           destruct (assoc k attrs') as [c|] eqn:Ak; try discriminate;
           apply (node_at_walk p c _ (k0 :: rest) q H);
           rewrite walk_model; unfold walk_attrs; apply in_flat_map; exists (k0, c0);
           (split; [apply PAFC01.Proofs.assoc_in; exact A|]); simpl; unfold prefix_paths; apply in_map_iff;
           exists (rest, q); auto. }
-      destruct n as [?|?|?|? ? ? ? ?|cls' ctor' attrs'|attrs']; simpl in H; try discriminate.
+      destruct n as [?|?|?|? ? ? ? ?|? ? ?|cls' ctor' attrs'|attrs']; simpl in H; try discriminate.
       + destruct (assoc k attrs') as [c|] eqn:Ak; [|discriminate].
         destruct (assoc_split k attrs' c Ak) as [a1 [a2 ->]].
         rewrite walk_model, occ_attrs, flat_map_app in O. simpl in O.
@@ -204,7 +205,7 @@ Section O.
         destruct (existsb (fun kc : string * node => match snd kc with NPrior p0 => Nat.eqb p0 q | _ => false end)
                           (a1 ++ (k, c) :: a2)) eqn:Ex.
         * exfalso. apply existsb_exists in Ex. destruct Ex as [[k' c'] [Hkc Ep]]. simpl in Ep.
-          destruct c' as [p0| | | | |]; try discriminate. apply Nat.eqb_eq in Ep. subst p0.
+          destruct c' as [p0| | | | | |]; try discriminate. apply Nat.eqb_eq in Ep. subst p0.
           apply in_app_or in Hkc. destruct Hkc as [Hkc|[Hkc|Hkc]].
           -- assert (X := flat_nil_children q a1 E1 (k', NPrior q) Hkc).
              apply in_split in Hkc. destruct Hkc as [l1 [l2 ->]]. rewrite flat_map_app in E1. simpl in E1.
